@@ -40,6 +40,8 @@ var (
 	c13S1 = c13Raw("staging", 50, '1')
 )
 
+func c13RawOf(id string) string { return "raw:" + string(c13Bytes(id)) }
+
 // c13History is the short operation history the traced helper performs.
 func c13History() []c13Op {
 	return []c13Op{
@@ -56,6 +58,11 @@ func c13History() []c13Op {
 		10: {Kind: "mkdirall", Key: "p/q"},                         // durable.MkdirAll of two new levels
 		11: {Kind: "upload", Key: "checkpoint", C: c13C3},          // second overwrite (shorter)
 		12: {Kind: "fetch", Key: "a/b/imm"},
+		// a large immutable object whose size is not a multiple of the 16384-byte compare chunk
+		13: {Kind: "upload", Key: "a/b/big", C: c13RawOf("p20000"), Imm: true},
+		14: {Kind: "upload", Key: "a/b/big", C: c13RawOf("p20000^19999"), Imm: true}, // differs only in the last byte: must fail
+		15: {Kind: "upload", Key: "a/b/big", C: c13RawOf("p20000"), Imm: true},       // identical re-upload
+		16: {Kind: "upload", Key: "a/b/big", C: c13RawOf("p20000^16384"), Imm: true}, // differs in the first byte of the partial chunk: must fail
 	}
 }
 
